@@ -55,3 +55,31 @@ def jacobi_of_filter(st, mu):
 def exact_energy():
     """E_true(s) = (v^2 - C_filter)/2-like: derived from the filter's Jacobi formula: E = -C/2."""
     return -jacobi_of_filter(STATE, MU) / 2
+
+
+class Relabel:
+    """Re-files the obligations a shared rule function produces under another property's rule id.
+
+    `mapping` maps rule-id prefixes (longest first) to their replacement, e.g. {"C03.c": "C10.b"}."""
+
+    def __init__(self, chk, mapping):
+        self._chk = chk
+        self._map = sorted(mapping.items(), key=lambda kv: -len(kv[0]))
+
+    def __getattr__(self, k):
+        return getattr(self._chk, k)
+
+    def _r(self, rule):
+        for a, b in self._map:
+            if rule.startswith(a):
+                return b + rule[len(a):]
+        return rule
+
+    def check(self, cond, rule, construct, *a, **kw):
+        return self._chk.check(cond, self._r(rule), construct, *a, **kw)
+
+    def ok(self, rule, construct, *a, **kw):
+        return self._chk.ok(self._r(rule), construct, *a, **kw)
+
+    def fail(self, rule, construct, *a, **kw):
+        return self._chk.fail(self._r(rule), construct, *a, **kw)
